@@ -327,8 +327,10 @@ def correct_names(name, val):
     :param val: the variable name we are modifying
     :return: the new name to use
     """
-    prefix = "_" + name
-    if val.startswith(prefix):
+    # only names of the form _<Class>__<name> are mangled names; an ordinary attribute may well start with the class name
+    # (_Nodes or _Node_count of a class Node) and must keep its name
+    prefix = "_" + name.lstrip("_")
+    if val.startswith(prefix + "__"):
         return val[len(prefix):]
     return val
 
